@@ -376,11 +376,30 @@ class Executor(object):
 
     def _number_loops(self, node):
         self.loop_ord = {}
+        self.site_ord = {}
+        self._site_counts = {}
         k = 0
+        c = 0
         for n in self._walk_own(node):
             if isinstance(n, (ast.For, ast.While)):
                 self.loop_ord[id(n)] = k
                 k += 1
+            if isinstance(n, (ast.Call, ast.Subscript, ast.BinOp, ast.Assert, ast.Compare, ast.Attribute)):
+                if isinstance(n, ast.Call):
+                    f = n.func
+                    key = f.id if isinstance(f, ast.Name) else (f.attr if isinstance(f, ast.Attribute) else 'call')
+                else:
+                    key = type(n).__name__.lower()
+                cnt = self._site_counts.get(key, 0)
+                self._site_counts[key] = cnt + 1
+                self.site_ord[id(n)] = '%s%d' % (key, cnt)
+
+    def site(self, node):
+        """stable name of a program point: ordinal of the node in the verified function (not its line number)"""
+        o = self.site_ord.get(id(node))
+        if o is not None:
+            return o
+        return 'l%d' % getattr(node, 'lineno', 0)
 
     def _walk_own(self, node):
         """preorder walk that does not descend into nested function/class definitions"""
@@ -687,7 +706,7 @@ class Executor(object):
         c = self.cond(s.test, st)
         mode = self.contract.options.get('asserts', 'raise') if self.contract else 'raise'
         if mode == 'oblige':
-            self.oblige(st, 'assert.l%d' % s.lineno, c, s, kind='assert')
+            self.oblige(st, 'assert.%s' % self.site(s), c, s, kind='assert')
             self.assume(st, c)
             return
         k = self.branch(st, c)
@@ -802,7 +821,7 @@ class Executor(object):
                 return True
             raise OutOfSubset('fork inside a pure (contract/spec) expression')
         if raising is not None and not self.exc_observable(st, raising):
-            self.oblige(st, 'safety.%s.l%d' % (raising, getattr(node, 'lineno', 0)), c, node, kind='safety',
+            self.oblige(st, 'safety.%s.%s' % (raising, self.site(node)), c, node, kind='safety',
                         note='%s would be raised here and nothing handles it' % raising)
             st.pc.append(c)
             return True
@@ -1096,7 +1115,7 @@ class Executor(object):
             if p == '*':
                 return set(n for n in names if n != '$srcs' and not n.endswith('.level') and not n.endswith('.sorted_iface'))
             if isinstance(p, tuple) and p[0] == 'family':
-                out |= set(n for n in names if self._family_array(n, p[1]))
+                out |= set(n for n in names if self._family_array(n, p[1]) and n.split('.')[-1] not in ('kind', 'jmv', 'nullw', 'kidx'))
             elif isinstance(p, tuple) and p[0] == 'arr':
                 out.add(p[1])
             elif p == 'held':
